@@ -156,6 +156,36 @@ mod harness {
     }
 
     // ---------------------------------------------------------------------------------------------------
+    // O11.5: a SendLastState that repeats the peer's current last state changes nothing - in particular it does not refresh the age of the last state and does
+    // not complete an outstanding GetLastState request, so a peer whose last state never changes is still disconnected after the message timeout
+    // ---------------------------------------------------------------------------------------------------
+    #[kani::proof] #[kani::unwind(12)]
+    fn same_last_state_keeps_its_age() {
+        let p = any_vh();
+        let t0: u64 = kani::any();
+        unsafe { NOW = t0; }
+        let ls = LastState::new(p);
+        let sent: u64 = kani::any();
+        let which: u8 = kani::any(); kani::assume(which < 3);
+        let mk_ps = || ProveState::new_from_request(ProveRequest::new(ls.clone(), Default::default()), Vec::new(), any_window(1));
+        let st = match which { 0 => PeerState::OnlyHasLastState { last_state: ls.clone() }, 1 => PeerState::Ready { last_state: ls.clone(), prove_state: mk_ps() },
+                               _ => PeerState::RequestNewLastState { last_state: ls.clone(), prove_state: mk_ps(), when_sent: sent } };
+        let mut proto = LightClientProtocol { storage: Storage { td: kani::any(), tip: any_hv(), last_n: Vec::new() },
+            peers: Peers { st: std::cell::RefCell::new(st), lock: MatchedLock }, header_ok: kani::any(), last_n: 1 };
+        unsafe { NOW = kani::any(); }
+        let pvh = packed::PVH(p);
+        let nc = Nc;
+        let proc_ = SendLastStateProcess { message: packed::SendLastStateReader { vh: &pvh }, protocol: &mut proto, peer_index: PeerIndex(0), nc: &nc };
+        let _ = proc_.execute();
+        let after = proto.peers.st.borrow().clone();
+        unsafe { assert!(G.n == 0, "SPEC same last state: repeating the current last state changed stored / peer state"); }
+        assert!(after.get_last_state().map(|l| l.update_ts) == Some(t0), "SPEC same last state: the age of an UNCHANGED last state was refreshed (such a peer is never disconnected by the timeout check)");
+        let same_variant = match (which, &after) { (0, PeerState::OnlyHasLastState { .. }) => true, (1, PeerState::Ready { .. }) => true, (2, PeerState::RequestNewLastState { when_sent, .. }) => *when_sent == sent, _ => false };
+        assert!(same_variant, "SPEC same last state: the peer left its state / its outstanding request was completed by an answer that carries nothing new");
+        kani::cover!(which == 2 && proto.header_ok, "repeated last state while a GetLastState request is outstanding");
+    }
+
+    // ---------------------------------------------------------------------------------------------------
     // O12.2: ProveState::new_child
     // ---------------------------------------------------------------------------------------------------
     #[kani::proof] #[kani::unwind(5)]
